@@ -69,6 +69,11 @@ def probe_unbox_order():
         (consts.LABEL_TUPLE, ((consts.LABEL_REMOTE_REF, far), (consts.LABEL_LOCAL_REF, key))),
         (consts.LABEL_TUPLE, ((consts.LABEL_TUPLE, ((consts.LABEL_VALUE, 1), (consts.LABEL_REMOTE_REF, far))),
                               (consts.LABEL_TUPLE, ((consts.LABEL_LOCAL_REF, key),)))),
+        # positional argument followed by keyword arguments: (fresh,) , (("k", x),)
+        (consts.LABEL_TUPLE, ((consts.LABEL_TUPLE, ((consts.LABEL_REMOTE_REF, far),)),
+                              (consts.LABEL_TUPLE, ((consts.LABEL_TUPLE, ((consts.LABEL_VALUE, "k"),
+                                                                          (consts.LABEL_LOCAL_REF, key))),)))),
+        (consts.LABEL_TUPLE, ((consts.LABEL_REMOTE_REF, far), (consts.LABEL_TUPLE, ((consts.LABEL_LOCAL_REF, key),)))),
     ]
     for package in shapes:
         events = []
@@ -109,11 +114,8 @@ def probe_unbox_order():
         if target not in flat or not any(isinstance(x, Proxy) for x in flat) or sorted(events) != ["create", "lookup"]:
             raise Inexpressible("_unbox order probe: unexpected result %r / events %r" % (out, events))
         results.append(events == ["lookup", "create"])
-    if all(results):
-        return True
-    if not any(results):
-        return False
-    raise Inexpressible("_unbox resolves LOCAL_REFs before proxy creation for some package shapes only: %r" % (results,))
+    # the constant says "for every package shape"; lookups-first for some shapes only is a plain "no"
+    return all(results)
 
 
 SECTIONS = [("Box.lean", gen_box)]
